@@ -1856,8 +1856,13 @@ def combine_expressions(
             f'expressions should be a list or tuple and not: {type(expressions)}'
         )
 
-    if not relation or relation.upper() not in ('AND', 'OR',):
+    if (
+        not relation
+        or not isinstance(relation, str)
+        or relation.upper() not in ('AND', 'OR',)
+    ):
         raise TypeError(f'relation should be one of AND, OR and not: {relation}')
+    relation = relation.upper()
 
 
     # only deal with LicenseExpression objects
